@@ -44,7 +44,7 @@ def cases(tier, seed):
         base = {'gen': 'prod', 'routine': routine, 'M': M, 'N': N, 'K': K, 'RA': gens.rank_profile(rng, d, 'rand', 4), 'RB': gens.rank_profile(rng, d, 'rand', 4),
                 'vals': ['gauss', 'decay', 'gauss', 'gauss'][(i // 4) % 4], 'eps': 10 ** rng.uniform(-12, -1), 'guess': ['none', 'none', 'user'][(i // 2) % 3],
                 'dtype': 'c128' if (routine in ('fast_matvec', 'dmrg_hadamard') and i % 5 == 4) else 'f64', 'vseed': rng.randrange(2 ** 40), 'RG': gens.rank_profile(rng, d, 'rand', 5),
-                'scale': [1.0, 1.0, 1e4, 1e-4, 1.0, 1e3][(i // 4) % 6]}
+                'scale': [1.0, 1.0, 1e4, 1e-4, 1.0, 1e3, 1e-15][(i // 4) % 7]}
         for j in range(k):
             c = dict(base)
             c['sidx'] = j
